@@ -67,10 +67,11 @@ type recorder struct {
 }
 
 type call struct {
-	pat  Pat
-	gen  int
-	toks []xml.Token
-	eof  bool
+	payload xml.Name // IQ handlers: the payload start element they were given
+	pat     Pat
+	gen     int
+	toks    []xml.Token
+	eof     bool
 }
 
 type marker struct {
@@ -108,7 +109,11 @@ func (m marker) HandleXMPP(t xmlstream.TokenReadEncoder, start *xml.StartElement
 	return m.read(t)
 }
 func (m marker) HandleIQ(iq stanza.IQ, t xmlstream.TokenReadEncoder, start *xml.StartElement) error {
-	return m.read(t)
+	err := m.read(t)
+	if start != nil && len(m.rec.calls) > 0 {
+		m.rec.calls[len(m.rec.calls)-1].payload = start.Name
+	}
+	return err
 }
 func (m marker) HandleMessage(msg stanza.Message, t xmlstream.TokenReadEncoder) error {
 	return m.read(t)
@@ -626,6 +631,96 @@ func (c *ctx) iqDefault(ps []Pat, typ string, n xml.Name, class string) {
 	}
 }
 
+// iqDirect calls HandleXMPP with one IQ stanza on a reader of the given framing: which handler
+// runs, which payload start element it is given and what it can read (the rest of the IQ's
+// content, never the IQ's end element), or the fallback reply / nothing / an error.
+func (c *ctx) iqDirect(ps []Pat, typ, inner string, cons int, framing, class string) {
+	r := c.r
+	ns := c08.NSClient
+	ta := ` type="` + typ + `"`
+	if typ == "" {
+		ta = ""
+	}
+	sx := `<iq` + ta + ` id="d1" from="a@example.org/r">` + inner + `</iq>`
+	toks := c08.Tokens(ns, []byte(sx+"</stream:stream>"))
+	if len(toks) < 3 {
+		return
+	}
+	st, ok := toks[0].(xml.StartElement)
+	if !ok {
+		return
+	}
+	stanzaToks := toks[:len(toks)-1]
+	line := strings.Join([]string{"iqdirect", framing, field(typ), encPats(ps), common.EncToks(stanzaToks), fmt.Sprint(cons)}, " ")
+	lines := []string{r.Prop + " " + line, "#inner " + common.HexS(inner)}
+	rec := &recorder{cons: []int{cons}}
+	m, p := buildFn(ns, ps, rec, framing == "sep")
+	if p != "" {
+		r.Line(line, "BUILD-PANIC")
+		return
+	}
+	fr := &framedReader{toks: stanzaToks[1:], framing: framing}
+	start := st.Copy()
+	var herr error
+	if pn := common.Recover(func() { herr = m.HandleXMPP(fr, &start) }); pn != "" {
+		r.Line(line, "PANIC")
+		r.Fail("no-panic", "panic", lines, pn)
+		return
+	}
+	obs := "nothing"
+	switch {
+	case len(rec.calls) > 0:
+		cl := rec.calls[0]
+		obs = "h=" + cl.pat.Enc() + "@" + encName(cl.payload) + "=" + common.EncToks(cl.toks)
+	case herr != nil:
+		obs = "err"
+	case fr.wrote > 0:
+		obs = "fallback"
+	}
+	r.Line(line, obs)
+	r.Case(line, len(rec.calls) > 0, class+"/iqdirect-"+framing+"/"+strings.SplitN(obs, "=", 2)[0])
+	// the specification: the first child element is the payload; the most specific pattern of
+	// the IQ's type for its name; the handler reads the content after the payload's start tag
+	var inTok []xml.Token
+	for _, t := range stanzaToks[1 : len(stanzaToks)-1] {
+		if cd, isCD := t.(xml.CharData); isCD && len(inTok) == 0 && strings.TrimLeft(string(cd), " \n\r\t") == "" {
+			continue
+		}
+		inTok = append(inTok, t)
+	}
+	if len(inTok) == 0 {
+		return
+	}
+	ps0, isStart := inTok[0].(xml.StartElement)
+	if !isStart {
+		if len(rec.calls) > 0 {
+			r.Fail("most-specific", "iq-no-payload", lines, "a handler ran for an IQ whose first content is not an element")
+		}
+		return
+	}
+	want := best(ps, "i", typ, ps0.Name)
+	request := typ != "result" && typ != "error"
+	switch {
+	case want != nil && (len(rec.calls) != 1 || rank(rec.calls[0].pat.Name) != rank(want.Name) || rec.calls[0].pat.Typ != typ):
+		r.Fail("most-specific", "iq-dispatch", lines, fmt.Sprintf("observed %s, want the handler of %s", obs, want.Enc()))
+	case want != nil:
+		wantToks := inTok[1:]
+		if cons < len(wantToks) {
+			wantToks = wantToks[:cons]
+		}
+		if rec.calls[0].payload != ps0.Name {
+			r.Fail("full-stanza", "iq-payload-start", lines, fmt.Sprintf("the handler was given the start element %v, the payload is %v", rec.calls[0].payload, ps0.Name))
+		}
+		if common.EncToks(rec.calls[0].toks) != common.EncToks(wantToks) {
+			r.Fail("full-stanza", "iq-view", lines, fmt.Sprintf("the handler read %s, want %s", common.EncToks(rec.calls[0].toks), common.EncToks(wantToks)))
+		}
+	case want == nil && request && obs != "fallback":
+		r.Fail("defaults", "request-unanswered", lines, fmt.Sprintf("unhandled %s IQ: observed %s, want one service-unavailable error", typ, obs))
+	case want == nil && !request && obs != "nothing":
+		r.Fail("defaults", "reply-answered", lines, fmt.Sprintf("unhandled %s IQ: observed %s, want nothing", typ, obs))
+	}
+}
+
 // ---- histories on one multiplexer -------------------------------------------------
 
 // hop is one step of a history: register a pattern (possibly with a nil handler), look a
@@ -1090,6 +1185,31 @@ func Run(r *common.Run) error {
 		}
 	}
 
+	// IQs handed to HandleXMPP directly, both framings: payload alone, with whitespace before
+	// it, with siblings and text after it, nested content; every consumption amount
+	iqInner := []string{`<x xmlns="urn:a"/>`, ` <x xmlns="urn:a"/>`, "\n\t<x xmlns=\"urn:a\"><i/>t</x> ", `<x xmlns="urn:a">t</x><y xmlns="urn:b"/>tail`,
+		`<y xmlns="urn:b"/><x xmlns="urn:a"/>`, `text<x xmlns="urn:a"/>`, ``, ` `, `<x xmlns="urn:a"><x xmlns="urn:a"/></x>`}
+	for ti, typ := range typesOf["i"] {
+		for ii, inner := range iqInner {
+			for mask := 0; mask < 16; mask++ {
+				if r.Quick() && (mask+ii+ti)%2 == 1 {
+					continue
+				}
+				var ps []Pat
+				for i, s := range shapes {
+					if mask&(1<<i) != 0 {
+						ps = append(ps, Pat{Kind: "i", Typ: typ, Name: s})
+					} else if (i+ti)%2 == 0 {
+						ps = append(ps, Pat{Kind: "i", Typ: typesOf["i"][(ti+1)%len(typesOf["i"])], Name: s})
+					}
+				}
+				for _, cons := range []int{0, 1, 2, 3, 9} {
+					c.iqDirect(ps, typ, inner, cons, []string{"sep", "eof"}[(mask+cons)%2], "exhaustive")
+				}
+			}
+		}
+	}
+
 	// registration: duplicate, nil, nil func, valid
 	for _, kind := range []string{"t", "i", "m", "p"} {
 		typ := typesOf[kind][0]
@@ -1509,6 +1629,18 @@ func (c *ctx) replay(lines []string) error {
 				}
 			}
 			c.hist(unfield(f[2]), ops, "replay")
+		case "iqdirect":
+			if len(f) != 7 || i+1 >= len(lines) || !strings.HasPrefix(lines[i+1], "#inner ") {
+				continue
+			}
+			ps, err := decPats(f[4])
+			if err != nil {
+				return err
+			}
+			in, _ := common.UnHex(strings.TrimPrefix(lines[i+1], "#inner "))
+			var cn int
+			fmt.Sscan(f[6], &cn)
+			c.iqDirect(ps, unfield(f[3]), string(in), cn, f[2], "replay")
 		case "iqdefault":
 			if len(f) != 5 {
 				continue
